@@ -55,7 +55,7 @@ pub struct Workload {
 
 impl Workload {
     pub fn new(name: &'static str, cases: u64) -> Self {
-        Workload { name, profile: "monitor", cases, shards: ncores(), watchdog_s: 3600 }
+        Workload { name, profile: "monitor", cases, shards: ncores(), watchdog_s: 1500 }
     }
     pub fn ship(mut self) -> Self {
         self.profile = "ship";
